@@ -9,6 +9,8 @@ C08.4  (TypeScript) digests read structure only: no hash()/hash256() reads metad
 import re
 from facts import walk, walk_inlined, WASM
 
+from facts import mentions_str_lit
+
 LEVEL = "other"
 
 
@@ -188,7 +190,7 @@ def sibling_tables_rule(cx, rep, rid):
         if f is None or "/src/print/" not in (f.file or ""):
             continue
         tree = F.hir[g]
-        if not any(x["k"] == "Lit" and x.get("v") == "AnyOfDiscriminatedRuntype" for x in walk(tree["body"])):
+        if not tree.get("params") or not mentions_str_lit(F, tree["body"], "AnyOfDiscriminatedRuntype"):
             continue
         n += 1
         tables = []
